@@ -18,11 +18,14 @@ import (
 	"encoding/hex"
 	"errors"
 	"fmt"
+	"io/ioutil"
 	"reflect"
 	"runtime"
 	"sort"
 	"strings"
 
+	"github.com/youchainhq/go-youchain/core/types"
+	"github.com/youchainhq/go-youchain/crypto"
 	"github.com/youchainhq/go-youchain/rlp"
 
 	"verifharness/internal/quiet"
@@ -323,6 +326,11 @@ func (h *H) typedCase(e *entry, bs []byte, label string, wantVal string, meas bo
 	hits := map[string]bool{}
 	norm := diagnose(e.sch, in, hits)
 	if len(hits) == 0 {
+		if bytes.Equal(re, bs) {
+			if why := hashOracle(o.g, bs); why != "" {
+				h.fail("oracle", "", "hash "+e.name, fmt.Sprintf("%s: one encoding, one hash: %s", e.name, why), []string{line})
+			}
+		}
 		if !bytes.Equal(re, bs) {
 			h.fail("oracle", "", "noncanonical "+e.name, fmt.Sprintf("%s (%s): accepted bytes re-encode differently and no modelled rule explains it\ninput     %x\nre-encode %x", e.name, label, bs, re), []string{line})
 		}
@@ -393,6 +401,9 @@ func (h *H) untypedCase(bs []byte, label string, meas bool) (accepted bool, deep
 		if got := ans; !(got == want || (want == "err" && strings.HasPrefix(got, "err"))) {
 			h.fail("correspondence", "", "split", fmt.Sprintf("rlp.Split (%s): real %s (%v), model %s", label, want, serr, ans), []string{line})
 		}
+	}
+	if why := rawOracle(bs); why != "" {
+		h.fail("oracle", "", "raw", "rlp raw.go / RawValue ("+label+"): "+why, []string{line})
 	}
 	lean := h.ask("U " + hx(bs))
 	if h.err != nil {
@@ -511,6 +522,10 @@ func run(c *vh.Ctx) error {
 		}
 		res.Dist("schema-canonical-" + fmt.Sprint(e.sch.canonical()))
 	}
+
+	// ---- exploration: the in-scope types used for the FIRST time by several goroutines at once (must come before
+	// anything else in this process hands them to package rlp)
+	h.concurrentColdScope()
 
 	// ---- corpus first ----------------------------------------------------------------------------------------
 	for _, f := range vh.CorpusFiles(prop) {
@@ -652,6 +667,10 @@ func run(c *vh.Ctx) error {
 		return h.err
 	}
 
+	// ---- exploration: allocation on large hostile / honest lists, type cache under concurrent first use ----------
+	h.allocExplore()
+	h.concurrentFirstUse()
+
 	// ---- known-finding probes (fixed witnesses, independent of the seed) ------------------------------------------
 	h.probes()
 
@@ -692,6 +711,97 @@ func honestRoundTrip(e *entry, bs []byte) string {
 	}
 	if !bytes.Equal(a, b) {
 		return fmt.Sprintf("decode∘encode is not the identity on the encoder's output: re-encoded as %x", re)
+	}
+	return ""
+}
+
+// hashOracle: the hash the node computes for an accepted, canonically encoded transaction / header / block is the
+// Keccak-256 of exactly the accepted bytes (header: of the header bytes inside the block).
+func hashOracle(g interface{}, bs []byte) string {
+	switch x := g.(type) {
+	case *types.Transaction:
+		if x.Hash() != crypto.Keccak256Hash(bs) {
+			return fmt.Sprintf("Transaction.Hash() %x is not keccak256 of the accepted bytes", x.Hash())
+		}
+	case *types.Header:
+		if x.MixDigest != types.UConMixHash && x.Hash() != crypto.Keccak256Hash(bs) {
+			return fmt.Sprintf("Header.Hash() %x is not keccak256 of the accepted bytes", x.Hash())
+		}
+		var y types.Header
+		if err := rlp.DecodeBytes(bs, &y); err != nil || y.Hash() != x.Hash() {
+			return "decoding the same header bytes twice gives two hashes"
+		}
+	case *types.Block:
+		if x.Hash() != x.Header().Hash() {
+			return "Block.Hash() differs from its header's hash"
+		}
+		var y types.Block
+		if err := rlp.DecodeBytes(bs, &y); err != nil || y.Hash() != x.Hash() {
+			return "decoding the same block bytes twice gives two hashes"
+		}
+	}
+	return ""
+}
+
+// rawOracle: the helpers of rlp/raw.go and the RawValue/EncodeToReader paths agree with Split and DecodeBytes.
+func rawOracle(bs []byte) (why string) {
+	defer func() {
+		if r := recover(); r != nil {
+			why = fmt.Sprintf("panic: %v", r)
+		}
+	}()
+	k, content, rest, serr := rlp.Split(bs)
+	var rv rlp.RawValue
+	derr := rlp.DecodeBytes(bs, &rv)
+	// known leniency of the unchanged code, outside the in-scope types (none has a RawValue): Stream.Raw does not apply
+	// the single-byte rule, so 0x81 0x05 is a RawValue although Split rejects it
+	lenient := derr == nil && serr != nil && len(bs) == 2 && bs[0] == 0x81 && bs[1] < 0x80
+	if (derr == nil) != (serr == nil && len(rest) == 0) && !lenient {
+		return fmt.Sprintf("DecodeBytes into RawValue says %v, Split says %v with %d trailing bytes", derr, serr, len(rest))
+	}
+	if derr == nil {
+		if !bytes.Equal(rv, bs) {
+			return fmt.Sprintf("RawValue %x differs from the input", []byte(rv))
+		}
+		if re, err := rlp.EncodeToBytes(rv); err != nil || !bytes.Equal(re, bs) {
+			return "RawValue does not encode to itself"
+		}
+		if _, rd, err := rlp.EncodeToReader(rv); err != nil {
+			return "EncodeToReader: " + err.Error()
+		} else if b, _ := ioutil.ReadAll(rd); !bytes.Equal(b, bs) {
+			return "EncodeToReader yields different bytes than EncodeToBytes"
+		}
+	}
+	if serr != nil {
+		return ""
+	}
+	if k == rlp.List {
+		c2, r2, err := rlp.SplitList(bs)
+		if err != nil || !bytes.Equal(c2, content) || !bytes.Equal(r2, rest) {
+			return "SplitList disagrees with Split"
+		}
+		if _, _, err := rlp.SplitString(bs); err == nil {
+			return "SplitString accepts a list"
+		}
+		// CountValues counts the items of the content iff every item header splits
+		n, cerr := rlp.CountValues(content)
+		m, c := 0, content
+		var werr error
+		for len(c) > 0 && werr == nil {
+			_, _, c, werr = rlp.Split(c)
+			m++
+		}
+		if (cerr == nil) != (werr == nil) || (cerr == nil && n != m) {
+			return fmt.Sprintf("CountValues = %d (%v), walking with Split = %d (%v)", n, cerr, m, werr)
+		}
+	} else {
+		c2, r2, err := rlp.SplitString(bs)
+		if err != nil || !bytes.Equal(c2, content) || !bytes.Equal(r2, rest) {
+			return "SplitString disagrees with Split"
+		}
+		if _, _, err := rlp.SplitList(bs); err == nil {
+			return "SplitList accepts a string"
+		}
 	}
 	return ""
 }
@@ -741,6 +851,8 @@ func (h *H) replayBody(body []string) (bool, string) {
 					h.msgs = append(h.msgs, why)
 				}
 			}
+		case len(f) >= 2 && (f[0] == "A" || f[0] == "C"):
+			h.replayExplore(f)
 		case len(f) >= 2 && f[0] == "M":
 			if w := hostileOne(f[1], unhx(f[len(f)-1])); w != "" {
 				h.failed = true
